@@ -36,6 +36,11 @@ func Witnesses(prop string) []*History {
 			{Profile: "witness:repeated-merge", Cfg: k, Vals: vals, Keys: keys,
 				Ops: []Op{{Kind: "load", Vals: []int{0}}, {Kind: "load", Vals: []int{1}}, {Kind: "branch", Name: 1, Commit: 2},
 					{Kind: "delete", Branch: 1, IDs: []int{1}}, {Kind: "merge", Branch: 0, Child: 1}, {Kind: "merge", Branch: 0, Child: 1}}},
+			// the child deletes an object it added after the ancestor and that main took over
+			{Profile: "witness:delete-of-merged-object", Cfg: k, Vals: vals, Keys: keys,
+				Ops: []Op{{Kind: "load", Vals: []int{0}}, {Kind: "branch", Name: 1, Commit: 1}, {Kind: "load", Branch: 1, Vals: []int{1}},
+					{Kind: "merge", Branch: 0, Child: 1}, {Kind: "delete", Branch: 1, IDs: []int{2}}, {Kind: "load", Branch: 1, Vals: []int{2}},
+					{Kind: "merge", Branch: 0, Child: 1}}},
 			// a clean merge and revert / revert-revert (must pass)
 			{Profile: "witness:clean", Cfg: k, Vals: vals, Keys: keys,
 				Ops: []Op{{Kind: "load", Vals: []int{0}}, {Kind: "branch", Name: 1, Commit: 1}, {Kind: "load", Branch: 1, Vals: []int{1}},
